@@ -134,11 +134,10 @@ class Exec:
         self.this = this if this is not None else sym.sym("this")
         # locals passed to non-const reference parameters are written by the callee: memory cells
         for n in walk([body, d.get("inits")]):
-            if n.get("k") in ("call", "mcall", "construct") and n.get("cusr") in variant.decls:
-                cps = variant.decls[n["cusr"]].d["params"]
-                for i, a in enumerate(n.get("args", [])):
-                    if i < len(cps) and isinstance(a, dict) and a.get("k") == "ref" and "id" in a and \
-                            is_ref_type(cps[i]["t"]) and not cps[i].get("pointee_const"):
+            if n.get("k") in ("call", "mcall", "construct", "opcall") and n.get("refargs"):
+                for i in n["refargs"]:
+                    a = n["args"][i] if i < len(n.get("args", [])) else None
+                    if isinstance(a, dict) and a.get("k") == "ref" and "id" in a:
                         self.addr_taken.add(a["id"])
         params = d["params"]
         for i, p in enumerate(params):
@@ -221,10 +220,15 @@ class Exec:
         if k == "asm":
             ins = [(i["c"], self.ev(i["e"], out)) for i in node.get("ins", [])]
             outs = []
-            for o in node.get("outs", []):
+            from . import asm as _asm
+            try:
+                modified = _asm.modified_output_operands(node)
+            except Exception:
+                modified = set(range(len(node.get("outs", []))))
+            for oi, o in enumerate(node.get("outs", [])):
                 e = o["e"]
                 outs.append((o["c"], self.lv(e, out) if not self._tracked_ref(e) else ("var", e["n"], e["id"])))
-                if self._tracked_ref(e):
+                if self._tracked_ref(e) and oi in modified:
                     self.env[e["id"]] = ("var", e["n"], e["id"])
             out.append({"e": "asm", "node": node, "ins": ins, "outs": outs, "l": node["l"]})
             return "fall"
@@ -266,6 +270,9 @@ class Exec:
         if tracked:
             if init is not None:
                 self.env[vid] = self.ev(init, out)
+                if vid in self.assigned:
+                    out.append({"e": "local", "name": dv["n"], "id": vid, "op": "decl", "val": self.env[vid],
+                                "new": self.env[vid], "l": dv["l"]})
             else:
                 self.env[vid] = ("unk", "uninit:%s" % dv["n"])
             return
@@ -377,6 +384,7 @@ class Exec:
                 step = s if inc["op"] == "+=" else sym.neg(s)
         body_asg, _ = assigned_ids(body)
         ok = var is not None and step is not None and cond is not None and vid not in body_asg
+        self.dry_forget([cond, inc, body] if not ok else [body])
         if ok:
             self.havoc(body)
             lv = sym.sym("%s@%d" % (vname, node["l"]))
@@ -416,7 +424,28 @@ class Exec:
         self.forget_stores_in(b)
         return "fall"
 
+    def dry_forget(self, nodes):
+        """tracked memory cells stored anywhere in a loop are loop-carried: find them by a dry run of the
+        body (effects discarded) and forget them before the real run"""
+        if not self.mem:
+            return
+        env0, mem0, ser0 = dict(self.env), dict(self.mem), Exec.serial
+        scratch = []
+        self.havoc(nodes)
+        for n in nodes:
+            if n is None:
+                continue
+            if n.get("k") in ("block", "if", "for", "while", "do", "decl", "return", "break", "continue", "asm"):
+                self.block(n, scratch)
+            else:
+                self.ev(n, scratch, stmt=True)
+        self.env = env0
+        self.mem.clear()
+        self.mem.update(mem0)
+        self.forget_stores_in(scratch)
+
     def do_while(self, node, out):
+        self.dry_forget([node.get("body")])
         self.havoc([node.get("c"), node.get("body")])
         b = []
         c = self.ev(node["c"], b)
@@ -746,18 +775,17 @@ class Exec:
                 this = self.ev(obj, out)
             else:
                 this = sym.addr(self.lv(obj, out))
-        cps = self.v.decls[e["cusr"]].d["params"] if e.get("cusr") in self.v.decls else []
-        off = 1 if (k == "opcall" and cps is not None and e.get("cusr") in self.v.decls
-                    and self.v.decls[e["cusr"]].get("record")) else 0
+        refargs = set(e.get("refargs") or [])
         args = []
+        byref = []
         for i, a in enumerate(e.get("args", [])):
             if not isinstance(a, dict):
                 args.append(None)
                 continue
-            j = i - off
-            if 0 <= j < len(cps) and is_ref_type(cps[j]["t"]) and a.get("k") in ("ref", "member", "index") \
-                    and not cps[j].get("pointee_const"):
-                args.append(self.lv(a, out))
+            if i in refargs and a.get("k") in ("ref", "member", "index", "un"):
+                lvt = self.lv(a, out)
+                args.append(lvt)
+                byref.append(lvt)
             else:
                 args.append(self.ev(a, out))
         if name is None:
@@ -768,7 +796,22 @@ class Exec:
             if f.get("record"):
                 this = sym.addr(args[0]) if args else None
                 args = args[1:]
-        return self.emit_call(e, name, args, out, this=this)
+        nbefore = len(out)
+        r = self.emit_call(e, name, args, out, this=this)
+        if byref and not any(x.get("e") == "inlined" for x in out[nbefore:]):
+            # the callee may assign through its reference parameters
+            if name == "std::swap" and len(byref) == 2:
+                a0, a1 = self.load(byref[0]), self.load(byref[1])
+                for lvt, val in ((byref[0], a1), (byref[1], a0)):
+                    out.append({"e": "store", "lv": lvt, "op": "=", "val": val, "l": e["l"], "byref": name})
+                    self.remember(lvt, val)
+            else:
+                for lvt in byref:
+                    Exec.serial += 1
+                    val = ("unk", "byref:%s:%d" % (name, Exec.serial))
+                    out.append({"e": "store", "lv": lvt, "op": "=", "val": val, "l": e["l"], "byref": name})
+                    self.remember(lvt, None)
+        return r
 
     def emit_call(self, e, name, args, out, this=None, array=None):
         usr = e.get("cusr")
